@@ -61,7 +61,7 @@ var pureAllow = []string{
 	"github.com/kubewharf/kubegateway/pkg/gateway/metrics", "github.com/kubewharf/kubegateway/pkg/ratelimiter/metrics",
 	"github.com/kubewharf/kubegateway/pkg/util/tracing", "github.com/gobeam/stringy", "encoding/json", "bytes", "unicode/utf8",
 	"k8s.io/apimachinery/pkg/util/sets", "k8s.io/kubernetes/pkg/apis/core/validation", "k8s.io/apimachinery/pkg/api/validation", "k8s.io/client-go/util/cert", "k8s.io/client-go/util/keyutil", "k8s.io/apimachinery/pkg/runtime/schema", "k8s.io/apimachinery/pkg/types", "crypto/x509", "encoding/pem", "crypto/tls", "hash/fnv", "regexp",
-	"k8s.io/apiserver/pkg/endpoints/request", "k8s.io/apiserver/pkg/authentication/user", "k8s.io/apiserver/pkg/authentication/serviceaccount",
+	"k8s.io/apiserver/pkg/endpoints/request", "k8s.io/apiserver/pkg/authentication/user", "k8s.io/apiserver/pkg/authorization/authorizer", "k8s.io/apiserver/pkg/authentication/serviceaccount",
 	"context",
 }
 
@@ -183,8 +183,8 @@ func (fr *frame) call(v *ssa.Call, cc *ssa.CallCommon, st *State, R string, b *s
 	kind, ctr, callee := fr.classifyCall(cc)
 	if callee != nil && len(cc.Args) >= 2 {
 		full := calleePkgPath(callee) + "." + callee.Name()
-		if full == "k8s.io/client-go/util/retry.RetryOnConflict" || full == "k8s.io/apimachinery/pkg/util/wait.ExponentialBackoff" {
-			fnArg := cc.Args[1]
+		if ai, ok := retryHelpers[full]; ok && len(cc.Args) > ai {
+			fnArg := cc.Args[ai]
 			for {
 				if ct, ok := fnArg.(*ssa.ChangeType); ok {
 					fnArg = ct.X
@@ -838,6 +838,8 @@ type modTarget struct {
 	ref    string   // object reference ("" = whole component)
 	mapKey string   // for map entries: key term ("" = whole map)
 	keys   []string // several components (x.*)
+	local  *addr    // a local slot of the enclosing function (captured variable not yet escaped)
+	localT types.Type
 }
 
 func (fr *frame) resolveModItem(env *Env, item string) []modTarget {
@@ -936,6 +938,19 @@ func (fr *frame) resolveModItem(env *Env, item string) []modTarget {
 				}
 			}
 		}
+		if e.Fun == "captured" && len(e.Args) == 1 {
+			// captured("x"): the variable x a closure shares with its enclosing function
+			if ns, ok := e.Args[0].(*EStr); ok && env.addrOf != nil {
+				if ref, la, T, ok := env.addrOf(ns.Val); ok {
+					if la != nil {
+						return []modTarget{{local: la, localT: T}}
+					}
+					return []modTarget{{key: fc.cellComp(T), ref: ref}}
+				}
+				fc.errf("modifies %q: not a captured variable held in a heap cell here", item)
+				return nil
+			}
+		}
 		if e.Fun == "cells" && len(e.Args) == 1 {
 			if ts, ok := e.Args[0].(*EStr); ok {
 				T, _ := fc.resolveType(ts.Val, env.tpkg)
@@ -993,6 +1008,9 @@ func (fr *frame) havocItem(env *Env, item string, st *State) {
 		switch {
 		case t.all:
 			fr.havocAllKeepFresh(st)
+		case t.local != nil:
+			// a variable of the enclosing function that is still a local slot here
+			fc.store(st, t.local, fc.freshConst("hv_local", fc.P.SortOf(t.localT)))
 		case t.ref == "":
 			st.comp[t.key] = fc.freshConst("hv_"+t.key, fc.compSort[t.key])
 		case t.mapKey != "":
@@ -1112,6 +1130,23 @@ func (fr *frame) makeClosure(in *ssa.MakeClosure, st *State, R string) {
 	fc.fact("", "(> %s 0)", n)
 	fr.closures[in] = in
 	fn := in.Fn.(*ssa.Function)
+	// identity of the closure: which function it is, and what its captured variables held at creation. The second fact
+	// is emitted only for variables assigned exactly once in the enclosing function and never in the closure.
+	fc.fact("", "(= (%s %s) %d)", fc.cloFnFun(), n, cloID(fn))
+	for i, fv := range fn.FreeVars {
+		b := in.Bindings[i]
+		pt, isPtr := b.Type().Underlying().(*types.Pointer)
+		if al, ok := b.(*ssa.Alloc); ok && isPtr && singleAssignment(al, fn) {
+			if a, ok := fr.addrs[b]; ok {
+				t, T := fc.load(st, a)
+				fc.fact("", "(= (%s %s) %s)", fc.cloFvFun(i, fc.P.SortOf(T)), n, t)
+			} else {
+				t := fc.loadHeapValue(st, fr.val(b), pt.Elem())
+				fc.fact("", "(= (%s %s) %s)", fc.cloFvFun(i, fc.P.SortOf(pt.Elem())), n, t)
+			}
+		}
+		_ = fv
+	}
 	ctr := fc.eng.ContractFor(fn)
 	if ctr == nil || ctr.PureDef == nil {
 		return
@@ -1149,6 +1184,44 @@ func (fr *frame) makeClosure(in *ssa.MakeClosure, st *State, R string) {
 	app := fc.appFun(ss, fc.P.SortOf(res.At(0).Type()))
 	body := env.tr(ctr.PureDef.E)
 	fc.fact("", "(forall (%s) (! (= (%s %s %s) %s) :pattern ((%s %s %s))))", strings.Join(qs, " "), app, n, strings.Join(as, " "), body.T, app, n, strings.Join(as, " "))
+}
+
+// singleAssignment: the captured cell is stored to exactly once in its function and never in the closure (or its nested closures).
+func singleAssignment(al *ssa.Alloc, clo *ssa.Function) bool {
+	stores := 0
+	for _, ref := range *al.Referrers() {
+		if st, ok := ref.(*ssa.Store); ok && st.Addr == al {
+			stores++
+		}
+	}
+	if stores != 1 {
+		return false
+	}
+	var writes func(fn *ssa.Function) bool
+	writes = func(fn *ssa.Function) bool {
+		for _, b := range fn.Blocks {
+			for _, in := range b.Instrs {
+				if st, ok := in.(*ssa.Store); ok {
+					if fv, ok := st.Addr.(*ssa.FreeVar); ok && fv.Type() == al.Type() {
+						return true
+					}
+				}
+			}
+		}
+		for _, an := range fn.AnonFuncs {
+			if writes(an) {
+				return true
+			}
+		}
+		return false
+	}
+	// other closures of the same parent may also capture and write the cell
+	for _, an := range al.Parent().AnonFuncs {
+		if writes(an) {
+			return false
+		}
+	}
+	return !writes(clo)
 }
 
 func (fr *frame) contractCallClosure(v *ssa.Call, resName string, ctr *FuncContract, mc *ssa.MakeClosure, cc *ssa.CallCommon, st *State, R string) {
@@ -1243,7 +1316,21 @@ func (fr *frame) baseEnv(st *State) *Env {
 	if fr.fn.Pkg != nil {
 		tpkg = fr.fn.Pkg.Pkg
 	}
-	return &Env{fc: fc, tpkg: tpkg, names: map[string]TV{}, cur: st, old: fr.entryState, loopEntry: fr.loopEntry}
+	env := &Env{fc: fc, tpkg: tpkg, names: map[string]TV{}, cur: st, old: fr.entryState, loopEntry: fr.loopEntry}
+	env.addrOf = func(name string) (string, *addr, types.Type, bool) {
+		for _, fv := range fr.fn.FreeVars {
+			if fv.Name() == name {
+				if pt, ok := fv.Type().Underlying().(*types.Pointer); ok {
+					if la, isLocal := fr.addrs[fv]; isLocal {
+						return "", la, pt.Elem(), true
+					}
+					return fr.val(fv), nil, pt.Elem(), true
+				}
+			}
+		}
+		return "", nil, nil, false
+	}
+	return env
 }
 
 func (fr *frame) loopInvariants(h *ssa.BasicBlock) []*Clause {
@@ -1317,6 +1404,13 @@ func (fr *frame) assumeInvariants(h *ssa.BasicBlock, st *State) {
 	}
 }
 
+// retryHelpers: helper -> index of the closure argument.
+var retryHelpers = map[string]int{
+	"k8s.io/client-go/util/retry.RetryOnConflict":            1,
+	"k8s.io/apimachinery/pkg/util/wait.ExponentialBackoff":   1,
+	"k8s.io/apiserver/pkg/util/webhook.WithExponentialBackoff": 2,
+}
+
 // retryCall: higher-order stub for retry.RetryOnConflict(backoff, fn) and wait.ExponentialBackoff(backoff, cond).
 // TRUSTED: the helper calls the closure one or more times and returns nil only if the LAST call returned nil
 // (resp. done == true, err == nil). Effects: whatever the closure's contract says it modifies, any number of times.
@@ -1382,6 +1476,10 @@ func (fr *frame) retryCall(v *ssa.Call, resName, full string, ctr *FuncContract,
 		fc.facts = append(fc.facts, Fact{Text: fmt.Sprintf("(assert (=> %s %s))", R, g), Tag: "post:" + ctr.Key + ":" + c.Label})
 	}
 	fc.fact("", "(=> %s (=> (= %s 0) %s))", R, resName, lastOK)
+	if strings.HasSuffix(full, "webhook.WithExponentialBackoff") && res.Len() == 1 {
+		// this helper returns exactly the error of the last call
+		fc.fact("", "(=> %s (= %s %s))", R, resName, post.names["result"].T)
+	}
 	fc.abstract("retry helper %s: returns nil only if the last call of the closure succeeded (trusted)", full)
 }
 
@@ -1393,6 +1491,20 @@ func (fr *frame) closureEnv(ctr *FuncContract, mc *ssa.MakeClosure, pre, post *S
 	binds := map[string]ssa.Value{}
 	for i, fv := range fn.FreeVars {
 		binds[fv.Name()] = mc.Bindings[i]
+	}
+	env.addrOf = func(name string) (string, *addr, types.Type, bool) {
+		b, ok := binds[name]
+		if !ok {
+			return "", nil, nil, false
+		}
+		pt, ok := b.Type().Underlying().(*types.Pointer)
+		if !ok {
+			return "", nil, nil, false
+		}
+		if la, isLocal := fr.addrs[b]; isLocal {
+			return "", la, pt.Elem(), true
+		}
+		return fr.val(b), nil, pt.Elem(), true
 	}
 	env.lookup = func(name string, s *State) (TV, bool) {
 		b, ok := binds[name]
